@@ -1,3 +1,5 @@
+#[cfg(simple_dns_verif)]
+use simrt::shim_tokio as tokio;
 use std::sync::Arc;
 use tokio::{spawn, sync::RwLock};
 
@@ -153,5 +155,13 @@ impl SimpleMdnsResponder {
 impl Default for SimpleMdnsResponder {
     fn default() -> Self {
         Self::new(FIVE_MINUTES)
+    }
+}
+
+#[cfg(simple_dns_verif)]
+impl SimpleMdnsResponder {
+    #[allow(missing_docs)]
+    pub fn verif_store(&self) -> Arc<RwLock<ResourceRecordManager<'static>>> {
+        self.resources.clone()
     }
 }
